@@ -14,6 +14,7 @@ import (
 	"fmt"
 	"os"
 	"time"
+	"verifharness/mon/c13s"
 
 	"github.com/codenotary/immudb/embedded/sql"
 	"github.com/codenotary/immudb/embedded/store"
@@ -187,4 +188,8 @@ func Run(c *fw.Ctx) {
 		cases = sel
 	}
 	c.RunIsolated("c13-engine", cases, fw.CasesOpts{Workers: 14, CaseTimout: 10 * time.Minute})
+	if os.Getenv("VERIF_C13_ONLY") == "" {
+		// the same property through the server's session transactions (gRPC) and the PostgreSQL wire front-end
+		c13s.RunFrontends(c)
+	}
 }
